@@ -174,6 +174,15 @@ func (r *Run) Key(buf []byte) []byte {
 		buf = append(buf, byte(e.H.ID()), byte(e.H.ID()>>8), byte(e.H.Generation()), byte(e.H.Generation()>>8))
 		if e.Alive {
 			buf = append(buf, 1)
+			// the model's view of the entity: an operation that the implementation silently ignores (world unchanged) but the
+			// model applies must lead to a new state - otherwise it is a self-loop and the state oracle never sees it
+			buf = append(buf, e.Has, byte(e.Target.ID()), byte(e.Target.ID()>>8), byte(e.Target.Generation()), byte(e.Target.Generation()>>8))
+			for ci := range r.cfg.Comps {
+				if e.Has&(1<<ci) != 0 {
+					v := e.Val[ci]
+					buf = append(buf, byte(v), byte(v>>8), byte(v>>16), byte(v>>24), byte(v>>32), byte(v>>40), byte(v>>48), byte(v>>56))
+				}
+			}
 		} else {
 			buf = append(buf, 0)
 		}
